@@ -183,6 +183,8 @@ def run(m, tier):
     from rules import engine_tables
     results.append(engine_tables.end_stmt_rule(m, "C08.R5"))
     results.append(engine_tables.bracket_rule(m, "C08.R6"))
+    from rules import regex_rules
+    results.append(regex_rules.anchor_rule(m, "C08.R7"))
     expl = ("Decides the structural clauses of C08: the table of block constructs extracted from every "
             "BlockBase.match call site agrees with the Fortran 2003/2008 rules (opening/END pair, name and label "
             "comparison flags), every END statement class names its keyword and refuses a bare END where the standard "
